@@ -933,7 +933,7 @@ package rewriter
 // ---------------------------------------------------------------- optimize.go: Delay elision moves the arguments of the returned call (C07, C13, C02)
 // D39: Delay(func() Seq[T] { return C(args) }) => C(args) evaluates args where the Delay call stands. EffFree is abstract: the
 // `ghost` rules below are its definition (literals, func literals, names; parentheses, selections and instantiations of such;
-// calls of the no-effect seq constructors over such, Bind only with a literal first argument).
+// calls of the no-effect seq constructors over such, Bind only with a literal first argument); names of variables are excluded.
 //@ extern (*types.Func).Pkg(f) (p)
 //@   ensures p == funcPkg(f)
 //@ extern (*types.Package).Path(p) (s)
@@ -953,7 +953,9 @@ package rewriter
 //@   requires NoTypedNil(exprs)
 //@   -- WfAst for expression lists: the arguments of a call are proper nodes
 //@   ghost forall j: Int :: 0 <= j && j < len(exprs) && isa(exprs[j], CallExpr) && !isnil(exprs[j]) ==> NoTypedNil(as(exprs[j], CallExpr).Args)
-//@   ghost forall j: Int :: 0 <= j && j < len(exprs) && (isa(exprs[j], BasicLit) || isa(exprs[j], FuncLit) || isa(exprs[j], Ident)) ==> EffFree(exprs[j])
+//@   -- D41: a name that denotes a variable is not a value: its read moves with the call (a package name, a function, a constant, nil are)
+//@   ghost forall j: Int :: 0 <= j && j < len(exprs) && (isa(exprs[j], BasicLit) || isa(exprs[j], FuncLit)
+//@        || (isa(exprs[j], Ident) && !isa(objectOf(as(exprs[j], Ident)), types.Var))) ==> EffFree(exprs[j])
 //@   ghost forall j: Int :: 0 <= j && j < len(exprs) && isa(exprs[j], ParenExpr) && EffFree(as(exprs[j], ParenExpr).X) ==> EffFree(exprs[j])
 //@   ghost forall j: Int :: 0 <= j && j < len(exprs) && isa(exprs[j], SelectorExpr) && EffFree(as(exprs[j], SelectorExpr).X) ==> EffFree(exprs[j])
 //@   ghost forall j: Int :: 0 <= j && j < len(exprs) && isa(exprs[j], IndexExpr) && IsTypeExpr(as(exprs[j], IndexExpr).Index)
